@@ -51,11 +51,34 @@ def c13_runs(tier):
     return [("main", [])]
 
 
+def fsm_runs(mode):
+    def f(tier):
+        runs = [("main", ["--mode", mode + "-steps"])]
+        extra = []
+        runs.append(("main", ["--mode", mode + "-closure"] + extra))
+        return runs
+    return f
+
+
+FSM = {"main": {"sources": MC + ["mc/darwin.c", "checks/fsm.c"], "modes": ["c14-steps", "c14-closure", "c15-steps", "c15-closure"]}}
 EMIT = {"main": {"sources": MC + ["checks/emit.c"], "modes": ["c06", "c10"]}}
 OBS = {"main": {"sources": MC + ["checks/obs.c"], "modes": ["c07", "c19"]}}
 PROTO = {"main": {"sources": MC + ["checks/proto.c"], "modes": ["c02", "c03", "c09"]}}
 
 PROPS = {
+    "C14": {
+        "builds": FSM, "runs": fsm_runs("c14"), "level": "model_checking",
+        "technique": "exhaustive single-step sweep (3 states x inputs -128..255 x 6 elapsed classes) + timed explicit-state closure with the Darwin glue and the periodic tick, product with the reference state machine, two clock origins",
+        "assumptions": ["time-abstracted key: timestamps relative to now, saturated beyond the largest constant they are compared with; checked by exploring from two clock origins",
+                        "charge counter bounded at 3 in the closure alphabet",
+                        "mc/darwin.c transcribes darwin-main.c:262-404 (trusted base)"],
+    },
+    "C15": {
+        "builds": FSM, "runs": fsm_runs("c15"), "level": "model_checking",
+        "technique": "exhaustive single-step sweep (4 states x 8 events x 5 elapsed classes) + timed closure over events and clock advances, product with the reference life-cycle table",
+        "assumptions": ["events outside 0..7 are not applied (left unspecified by the property)",
+                        "after an expired timeout either Nascent or delta(Nascent, event) is accepted"],
+    },
     "C13": {
         "engine": "sweep",
         "builds": {"main": {"sources": MC + ["checks/c13.c"]}}, "runs": c13_runs, "level": "exploration",
